@@ -50,6 +50,7 @@ func c18SliceOfSQL(sql string) string {
 //	end_missing        COMMIT / ROLLBACK / autocommit=1 not sent to a connection the transaction used
 //	end_extra          ... sent to a connection the transaction did not use
 //	not_released       a transaction connection not recycled after the end (no keep-session)
+//	released_in_tx     a live transaction connection recycled before the transaction ended
 //	sp_missing/sp_extra SAVEPOINT / ROLLBACK TO / RELEASE not executed on exactly the transaction's connections
 func c18Judge(tr *txTrace) []c18Viol {
 	var out []c18Viol
@@ -96,6 +97,15 @@ func c18Judge(tr *txTrace) []c18Viol {
 				if e.Taken {
 					delete(owner, e.Conn)
 					released[e.Conn] = true
+					// a live connection of the open transaction must stay checked out
+					// until the transaction ends
+					if window && !isEnd && !e.Closed && !st.Ended {
+						for _, c := range txConn[x] {
+							if c == e.Conn {
+								add("released_in_tx", x, i, e.String())
+							}
+						}
+					}
 				}
 				continue
 			case "close":
@@ -199,11 +209,14 @@ func c18Shrink(tr *txTrace, v c18Viol) (*txTrace, c18Viol) {
 	for changed := true; changed; {
 		changed = false
 		for i := 0; i < len(cur.Case.Steps); i++ {
-			if txClass(cur.Case.Steps[i].Op) == "Q" {
+			if txClass(cur.Case.Steps[i].Op) == "Q" || (cur.Case.Fault != nil && cur.Case.Fault.Cmd == i) {
 				continue
 			}
 			d := cur.Case.clone()
 			d.Steps = append(append([]txStep(nil), cur.Case.Steps[:i]...), cur.Case.Steps[i+1:]...)
+			if d.Fault != nil && d.Fault.Cmd > i {
+				d.Fault.Cmd--
+			}
 			found := false
 			for t := 0; t < 3 && !found; t++ {
 				t2 := w.Run(d)
@@ -226,8 +239,8 @@ func c18Shrink(tr *txTrace, v c18Viol) (*txTrace, c18Viol) {
 	return cur, curV
 }
 
-var c18Alpha = []string{"begin", "start", "commit", "rollback", "ac0", "ac1", "sp", "rbsp", "relsp", "rs0", "rs1", "rs2", "ws0", "ws1", "ws2", "fs1", "ru", "wu", "fu", "rg", "wg", "fl"}
-var c18Core = []string{"begin", "ac0", "commit", "rollback", "ac1", "sp", "ws2", "ru", "rs1"}
+var c18Alpha = []string{"begin", "start", "commit", "rollback", "ac0", "ac1", "sp", "rbsp", "relsp", "rs0", "rs1", "rs2", "ws0", "ws1", "ws2", "fs1", "ru", "wu", "fu", "rg", "wg", "fl", "sr", "sm"}
+var c18Core = []string{"begin", "ac0", "commit", "rollback", "ac1", "sp", "ws2", "ru", "rs1", "sr"}
 
 func c18Random(r *kit.Rand, n, maxLen int) []*txCase {
 	var out []*txCase
@@ -249,6 +262,26 @@ func c18Random(r *kit.Rand, n, maxLen int) []*txCase {
 				op = r.Pick([]string{"begin", "start", "ac0"})
 			}
 			c.Steps = append(c.Steps, txStep{S: s, Op: op})
+		}
+		// one case in four: a backend error on the COMMIT / ROLLBACK of
+		// one slice, followed by a further transaction of the same session
+		if r.Chance(1, 4) {
+			var ends []int
+			for j, st := range c.Steps {
+				if st.Op == "commit" || st.Op == "rollback" {
+					ends = append(ends, j)
+				}
+			}
+			if len(ends) == 0 {
+				s := r.Intn(ns)
+				c.Steps = append(c.Steps, txStep{S: s, Op: r.Pick([]string{"ws2", "ws1", "ru"})}, txStep{S: s, Op: r.Pick([]string{"commit", "rollback"})})
+				ends = append(ends, len(c.Steps)-1)
+			}
+			at := ends[r.Intn(len(ends))]
+			sx := c.Steps[at].S
+			c.Fault = &txFault{Kind: "err", Cmd: at, Slice: r.Pick([]string{"slice-0", "slice-1"}), Op: c.Steps[at].Op, N: 0}
+			tail := []txStep{{S: sx, Op: r.Pick([]string{"begin", "ac0", "start"})}, {S: sx, Op: "ws2"}, {S: sx, Op: r.Pick([]string{"commit", "rollback"})}}
+			c.Steps = append(c.Steps[:at+1], append(tail, c.Steps[at+1:]...)...)
 		}
 		for _, s := range r.Perm(ns) {
 			c.Steps = append(c.Steps, txStep{S: s, Op: r.Pick([]string{"quit", "quit", "disc"})})
@@ -279,7 +312,7 @@ func c18Exhaustive(n int) []*txCase {
 }
 
 func TestVerif_C18(t *testing.T) {
-	rec := kit.Start("C18", "exploration", "fault-free command sequences over 22 commands (BEGIN, START TRANSACTION, COMMIT, ROLLBACK, SET autocommit 0/1, SAVEPOINT/ROLLBACK TO/RELEASE, sharded reads/writes on one or two slices, unsharded reads/writes, SELECT FOR UPDATE, global-table statements, COM_FIELD_LIST) for one or two interleaved client sessions sharing the pools, users rw / rw-split / read-only, keep-session on/off; thorough adds every sequence up to length 4 over a 9-command core; a case is non-trivial when a transaction touched a backend, keyed by (mode, users, ordered command classes)")
+	rec := kit.Start("C18", "exploration", "command sequences over 25 commands (BEGIN, START TRANSACTION, COMMIT, ROLLBACK, SET autocommit 0/1, SAVEPOINT/ROLLBACK TO/RELEASE, sharded reads/writes on one or two slices, unsharded reads/writes, SELECT FOR UPDATE, global-table statements, COM_FIELD_LIST, statements answered with streamed / multi-result sets; one random case in four adds a backend error on the COMMIT / ROLLBACK of one slice followed by a further transaction) for one or two interleaved client sessions sharing the pools, users rw / rw-split / read-only, keep-session on/off; thorough adds every sequence up to length 4 over a 10-command core; a case is non-trivial when a transaction touched a backend, keyed by (mode, users, ordered command classes)")
 	defer rec.Finish(t)
 	rec.Assume("one client command in flight per namespace, so every backend event is attributable to one session")
 	rec.Assume("the slice a rewritten statement was planned for is read from the physical table name (tbl_shard_000N)")
